@@ -281,6 +281,33 @@ func (bp *boundsProver) minLen(x ssa.Value, at ssa.Instruction) int64 {
 			}
 		}
 	}
+	// a field of a helper's pointer parameter (receiver), not written in the helper before this point: at least as
+	// long as every call site knows the argument's field to be (a `len(s.list) > 0` test the call is made under)
+	if ld, ok := x.(*ssa.UnOp); ok && ld.Op == token.MUL && bp.minLenDepth < 3 {
+		if fa, isFA := ld.X.(*ssa.FieldAddr); isFA {
+			if prm, isPrm := fa.X.(*ssa.Parameter); isPrm && len(prm.Parent().Blocks) > 0 && len(prm.Parent().Blocks[0].Instrs) > 0 {
+				entry := prm.Parent().Blocks[0].Instrs[0]
+				idx := paramIndex(prm)
+				callers := bp.c.P.Callers(prm.Parent())
+				cls := storeCell(fa)
+				if idx >= 0 && len(callers) > 0 && (entry == ssa.Instruction(ld) || !bp.mayWriteBetween(entry, ld, cls)) {
+					least := int64(-1)
+					for _, e := range callers {
+						n := int64(0)
+						if e.Site != nil && !e.Site.Common().IsInvoke() && e.Site.Common().StaticCallee() != nil && idx < len(e.Site.Common().Args) {
+							n = bp.fieldMinLenAt(e.Site.Common().Args[idx], fa.Field, e.Site, cls)
+						}
+						if least < 0 || n < least {
+							least = n
+						}
+					}
+					if least > best {
+						best = least
+					}
+				}
+			}
+		}
+	}
 	// L-re: result of FindStringSubmatch on a constant regexp, known non-nil here
 	if call, ok := x.(*ssa.Call); ok && calleeName(call) == "(*regexp.Regexp).FindStringSubmatch" {
 		if n, ok := bp.regexpGroups(call.Call.Args[0]); ok {
@@ -304,6 +331,52 @@ func (bp *boundsProver) minLen(x ssa.Value, at ssa.Instruction) int64 {
 			continue
 		}
 		if !bp.sameSeq(ly, x) || !bp.loadStable(ly, x, at) {
+			continue
+		}
+		op := bo.Op
+		if !ce.Val {
+			op = negateOp(op)
+		}
+		var lb int64 = -1
+		switch op {
+		case token.EQL:
+			lb = k
+		case token.NEQ:
+			if k == 0 {
+				lb = 1
+			}
+		case token.GTR:
+			lb = k + 1
+		case token.GEQ:
+			lb = k
+		}
+		if lb > best {
+			best = lb
+		}
+	}
+	return best
+}
+
+// fieldMinLenAt: a lower bound of len(obj.field) at the call site, from a dominating comparison of that length with a
+// constant and no write to the field's class between the compared load and the site.
+func (bp *boundsProver) fieldMinLenAt(obj ssa.Value, field int, site ssa.Instruction, cls string) int64 {
+	best := int64(0)
+	for _, ce := range dominatingConds(site.Block()) {
+		bo, ok := ce.Cond.(*ssa.BinOp)
+		if !ok {
+			continue
+		}
+		ly, okL := lenOf(bo.X)
+		k, okK := constInt(bo.Y)
+		if !okL || !okK {
+			continue
+		}
+		ld, isLd := ly.(*ssa.UnOp)
+		if !isLd || ld.Op != token.MUL {
+			continue
+		}
+		fa, isFA := ld.X.(*ssa.FieldAddr)
+		if !isFA || fa.X != obj || fa.Field != field || bp.mayWriteBetween(ld, site, cls) {
 			continue
 		}
 		op := bo.Op
@@ -520,6 +593,18 @@ func (bp *boundsProver) proveLen(v ssa.Value, x ssa.Value, goal relGoal, at ssa.
 			// v < n where x = make([]T, n)
 			if ms, ok := x.(*ssa.MakeSlice); ok && bo.Y == ms.Len && (op == token.LSS || (op == token.LEQ && goal == leLen)) {
 				return true
+			}
+			// v < w and w <= len(x) (w a number a helper computed from x: a count of its leading elements, an index into it)
+			if _, isLen := lenOf(bo.Y); !isLen && bo.X == v && !seen[bo.Y] {
+				switch bo.Y.(type) {
+				case *ssa.Call, *ssa.Extract:
+					if op == token.LSS && bp.proveLen(bo.Y, x, leLen, at, atBlock, seen, d+1) {
+						return true
+					}
+					if op == token.LEQ && bp.proveLen(bo.Y, x, goal, at, atBlock, seen, d+1) {
+						return true
+					}
+				}
 			}
 		}
 		if bo.Y == v {
